@@ -120,6 +120,14 @@ AfterMerge(o, s) == IF s.n = 0 THEN o
                                    !.minI = IF o.n = 0 THEN s.minI ELSE Min2(@, s.minI),
                                    !.maxI = IF o.n = 0 THEN s.maxI ELSE Max2(@, s.maxI)]
 
+(* published error after merges (C07 / C08): the k a sketch derives its published rank error from - KLL "min K", the     *)
+(* classic sketch's k - is never larger than the smallest k that contributed COMPACTED data.  ck is that ghost: Big while  *)
+(* nothing compacted contributed; an estimating sketch contributes its own k.  Kept by the trace specification per object. *)
+Big == 1000000
+CkUpdate(ck, est, k) == IF est THEN Min2(ck, k) ELSE ck
+CkMerge(cki, ckj, est, k) == CkUpdate(Min2(cki, ckj), est, k)
+PublishedKOK(fam, pk, ck, est) == (fam # "req" /\ est) => pk <= ck
+
 Init == obj = <<>>
 New(i, fam, post) == LET o == WithObs(Fresh(fam, post.k), post) IN
   /\ AllHold(GhostClauses(o, post)) /\ ObjOK(o)
